@@ -161,3 +161,37 @@ def enum_coverage(wrappers, repo=None):
                 if not any(key in x for x in variants):
                     uncovered.append("%s %s" % (fn, key))
     return required, uncovered
+
+
+def flag_coverage(wrappers, repo=None):
+    """Like enum_coverage for flag-typed parameters: every constant of every flag type (bitflag
+    structs and const-carrying newtypes of rusl/src) that a wrapper takes directly as a parameter
+    must be exercised by an entry of that wrapper whose `variant` names "Type::CONST"."""
+    from checks import gen_sysw_flags as G
+    types = G.flag_types(repo)
+    root = os.path.join(repo or core.REPO, "rusl", "src")
+    by_fn = {}
+    for w in wrappers:
+        by_fn.setdefault(w["fn"], []).append(w.get("variant", ""))
+    required, uncovered, excluded = 0, [], []
+    for fn, variants in sorted(by_fn.items()):
+        f, name = fn.split(":")
+        try:
+            t = _strip_tests(open(os.path.join(root, f)).read())
+        except OSError:
+            continue
+        m = re.search(r"fn %s\s*(?:<[^>]*>)?\s*\(([^)]*)\)" % re.escape(name), t, re.S)
+        if not m:
+            continue
+        for ty in sorted(set(re.findall(r":\s*&?(?:mut\s+)?(?:[\w:]+::)?(\w+)", m.group(1)))):
+            if ty not in types:
+                continue
+            if (fn, ty) in G.EXCLUDED:
+                excluded.append({"param": "%s %s" % (fn, ty), "reason": G.EXCLUDED[(fn, ty)]})
+                continue
+            for c in types[ty]:
+                required += 1
+                key = "%s::%s" % (ty, c)
+                if not any(key == x or key in x.split("+") for x in variants):
+                    uncovered.append("%s %s" % (fn, key))
+    return required, uncovered, excluded
